@@ -350,11 +350,30 @@ def small_typeddicts():
     return out
 
 
+USER_GENERICS = ["Rev[int, str]", "Rev[str, int]", "Fwd[int, str]", "Fwd[str, int]", "IntKeyed[str]", "IntKeyed[int]", "LS[int]", "LS[str]",
+                 "Rev[int, int]", "Rev[bool, str]"]
+CONTAINERS = ["dict[int, str]", "dict[str, int]", "dict[str, str]", "dict[int, int]", "Mapping[int, str]", "Mapping[str, int]",
+              "Mapping[object, object]", "list[int]", "list[str]", "Sequence[int]", "Sequence[str]", "Iterable[int]", "Iterable[str]",
+              "Iterable[object]", "dict[bool, str]", "Mapping[str, float]"]
+
+
+def user_generic_pairs():
+    """Every (container type, user generic derived from a container) pair in both directions, and user
+    generics among themselves."""
+    for u in USER_GENERICS:
+        for c in CONTAINERS:
+            yield ("rt", c), ("rt", u)
+            yield ("rt", u), ("rt", c)
+        for u2 in USER_GENERICS:
+            yield ("rt", u), ("rt", u2)
+
+
 def shards(tier, seed):
     n = 16
     per = 1200 if tier == "quick" else 40000
     out = [{"mode": "pairs", "index": i, "examples": per} for i in range(n)]
     out += [{"mode": "td-pairs", "index": i, "of": 8} for i in range(8)]
+    out.append({"mode": "user-generics"})
     out += [{"mode": "program", "index": i, "modules": 5 if tier == "quick" else 150} for i in range(4 if tier == "quick" else 16)]
     return out
 
@@ -397,6 +416,15 @@ def run_shard(spec):
         runner.drive(col, make_any, seed + 7, spec["examples"] // 3, replay=replay)
         return col.result()
 
+    if spec["mode"] == "user-generics":
+        for ra, rb in user_generic_pairs():
+            fails, info = check_pair(ra, rb, laws=False)
+            col.case(nontrivial_id=("ug", ra[1], rb[1]) if info["accepted"] and ra != rb else None,
+                     label=[f"accepted:{info['accepted']}", "kind:user-generic"])
+            for key, what in fails:
+                col.fail(key, what[:500], {"a": list(ra), "b": list(rb)})
+        col.extra["exhaustive_bounds"] = ["user generics derived from containers (Generic[...] first / last, permuted parameters, partially applied) x container types, both directions"]
+        return col.result()
     if spec["mode"] == "td-pairs":
         tds = small_typeddicts()
         k = 0
